@@ -174,6 +174,13 @@ fn rustls_spec() -> BoxedStrategy<RustlsSpec> {
                 v.push(last);
                 v
             }),
+            // hellos of 16-24 KiB: the first record is a full one and does not complete within the
+            // 16 KiB the listener peeks at
+            1 => (380usize..560, prop_oneof![Just("h2".to_string()), Just("http/1.1".to_string())]).prop_map(|(n, last)| {
+                let mut v: Vec<String> = (0..n).map(|i| format!("proto-{:04}-{}", i, "y".repeat(30))).collect();
+                v.push(last);
+                v
+            }),
         ],
         0u8..3,
         prop_oneof![4 => Just(None), 1 => (40u16..300).prop_map(Some)],
@@ -387,7 +394,7 @@ impl Suite for SocketSuite {
         "listener-on-socket"
     }
     fn rule(&self) -> String {
-        "rustls client hellos (as above, incl. several-record ones and single-record ones of 4-15 KiB built with long ALPN lists) written to a socket pair in 1-6 generated pieces, each piece only after the listener has drained the previous one (FIONREAD), so the listener's read boundaries are exactly the cuts; the real TlsListener::listen + TlsAcceptor::accept run on the other end; oracle: reported client random is the hello's (mandatory for single-record hellos, otherwise absent is allowed), SNI and ALPN seen by the acceptor are the client's, the handshake completes on exactly the bytes sent and 4 KiB of application data echo intact both ways; non-trivial = a cut inside the first 43 bytes or a hello over several records".into()
+        "rustls client hellos (as above, incl. several-record ones and single-record ones of 4-15 KiB and two-record ones of 16-24 KiB built with long ALPN lists) written to a socket pair in 1-6 generated pieces, each piece only after the listener has drained the previous one (FIONREAD), so the listener's read boundaries are exactly the cuts; the real TlsListener::listen + TlsAcceptor::accept run on the other end; oracle: reported client random is the hello's (mandatory for single-record hellos, otherwise absent is allowed), SNI and ALPN seen by the acceptor are the client's, the handshake completes on exactly the bytes sent and 4 KiB of application data echo intact both ways; non-trivial = a cut inside the first 43 bytes or a hello over several records".into()
     }
     fn strategy(&self, _: Tier) -> BoxedStrategy<SocketCase> {
         (rustls_spec(), prop::collection::vec(any::<u16>(), 0..6), 0u8..2)
@@ -408,6 +415,9 @@ impl Suite for SocketSuite {
         if b.len() > 4096 {
             v.push("hello-larger-than-4-KiB");
         }
+        if b.len() > 16384 + 5 {
+            v.push("hello-larger-than-the-peek-buffer");
+        }
         if multi {
             v.push("several-records");
         }
@@ -417,7 +427,7 @@ impl Suite for SocketSuite {
         v
     }
     fn required_classes(&self) -> Vec<&'static str> {
-        vec!["nontrivial", "cut-inside-random", "several-records", "hello-larger-than-4-KiB"]
+        vec!["nontrivial", "cut-inside-random", "several-records", "hello-larger-than-4-KiB", "hello-larger-than-the-peek-buffer"]
     }
     fn check(&self, c: &SocketCase) -> Verdict {
         let c = c.clone();
